@@ -47,6 +47,17 @@ CLAIMED = {
             "trusted: TLC, the documented semantics of std.slice/reverse/repeat/range/makeArray/map/filter as transcribed in Den; "
             "negative slice bounds count from the end; element types limited to numbers, 1-char strings, small arrays",
             "DESIGN.md §4 C08"),
+    "C07": ("TLA+ spec Imports (worlds + per-state cache protocol as a state machine) model-checked by TLC; every "
+            "behaviour replayed on a real directory tree through a recording/fault-injecting resolver built by "
+            "jrsonnet_cli::MiscOpts; import-cache hook events trace-validated against Trace_Imports",
+            "TLC checks LoadOnce, EvalOnce, NoStaleFlag, EvaluatingIsStack, CacheSound, RetrySame over five families of worlds "
+            "(layouts x -J/JSONNET_PATH orders x import kinds x spellings, import graphs with strict/lazy cycles, file kinds, "
+            "injected resolve/load faults, recovery) with two runs per state; the resolver call log, the order of file "
+            "evaluations, outcome and value of each run must equal the model's; hook events of these runs and of random "
+            "4-8 file graphs must be behaviours of the cache protocol",
+            "trusted: TLC, the recording resolver wrapper of the harness; error kinds compared as value-vs-error; symlink and "
+            "d/../ spellings only in the importing directory",
+            "DESIGN.md §4 C07"),
 }
 
 NOT_YET = "specification module and binding not built yet in this round; see DESIGN.md §4 for the planned model"
